@@ -688,10 +688,20 @@ func (s *session) update(logID string, old uint64, cp []byte, proof [][]byte, ex
 	}
 	// ground truth for the oracle: the harness asks its own recording verifier about the submitted note,
 	// so the model never depends on which verifications the code under test chose to perform
+	xread := ""
 	{
 		for _, l := range s.logs {
 			if l.id == logID {
 				_, _ = note.Open(cp, note.VerifierList(l.rv))
+				if s.ctl != nil && strings.Contains(s.faults, "X") {
+					// fault X: the write handle's read returns damaged bytes; which bytes, and what the log's verifier says of them
+					xread = " xread=-"
+					if b, err := hexDecode(pre); err == nil && pre != "-" && pre != "!" {
+						d := corruptRead(b, s.ctl.xkind)
+						xread = " xread=" + hx(d)
+						_, _ = note.Open(d, note.VerifierList(l.rv))
+					}
+				}
 			}
 		}
 	}
@@ -756,7 +766,7 @@ func (s *session) update(logID string, old uint64, cp []byte, proof [][]byte, ex
 	}
 	fl := ""
 	if s.ctl != nil {
-		fl = fmt.Sprintf(" faults=%s hang=%d", faultLetters, hang)
+		fl = fmt.Sprintf(" faults=%s hang=%d%s", faultLetters, hang, xread)
 	}
 	s.t.line("U %s log=%s old=%d cp=%s proof=%s pre=%s tw=%d,%d allpre=%s allpost=%s %s%s%s%s err=%s ret=%s post=%s ctr=%d,%d,%d,%d",
 		s.id, hx([]byte(logID)), old, hx(cp), hxList(proof), pre, t0, t1, allpre, allpost, extra, fl, calls, dops, cls, r, post,
